@@ -155,10 +155,12 @@ fn expect_ok(c: &Case, o: &Outcome) -> Result<(), String> {
 pub fn c01(ctx: &Ctx, rep: &mut Report) {
     rep.rule = "random (alg, method, width, class, n) with valid shape; non-trivial = n >= 3; distinct by hash of the request line".into();
     let mut rng = Rng::new(ctx.seed);
-    let cases = gen_cases(
+    let mut cases = crate::core::corpus_cases("C01");
+    rep.count_by("corpus_cases", cases.len() as u64);
+    cases.extend(gen_cases(
         &mut rng,
         &GenSpec { count: n_cases(ctx, 3000, 60000), max_n: if ctx.thorough { 300 } else { 48 }, classes: &gen::CLASSES, algs: &ALGS, methods: &METHODS, min_n: 0 },
-    );
+    ));
     generic_session(ctx, rep, cases, &|c, o| {
         expect_ok(c, o)?;
         if let Outcome::Ok { obs, steps, .. } = o {
